@@ -176,7 +176,7 @@ func LoadAllOrder(w *world.World, parseSeed uint64) (*Loaded, error) {
 	l.Plain = make([]*LPkg, len(w.Pkgs))
 	l.Test = make([]*LPkg, len(w.Pkgs))
 	l.XTest = make([]*LPkg, len(w.Pkgs))
-	byPath := map[string]*LPkg{}
+	byPath := map[string]*LPkg{"unsafe": unsafeLPkg()}
 	for i := range w.Pkgs {
 		p := &w.Pkgs[i]
 		for _, variant := range []bool{false, true} {
@@ -255,6 +255,20 @@ func LoadAllOrder(w *world.World, parseSeed uint64) (*Loaded, error) {
 		}
 	}
 	return l, nil
+}
+
+// ModuleOf returns (path, version) of the module package i belongs to.
+func ModuleOf(w *world.World, i int) (string, string) {
+	if p := &w.Pkgs[i]; p.ModPath != "" {
+		return p.ModPath, p.ModVersion
+	}
+	return w.Module, ""
+}
+
+// unsafeLPkg: what go/packages hands the standalone driver for "unsafe": a
+// package without syntax, on which fact-carrying analyzers still run.
+func unsafeLPkg() *LPkg {
+	return &LPkg{ID: "unsafe", Path: "unsafe", Name: "unsafe", Index: -1, Types: types.Unsafe, Info: newInfo(), Imports: map[string]*LPkg{}}
 }
 
 // Diag is one normalised diagnostic.
